@@ -246,6 +246,9 @@ def run(ctx, host=None):
         if not found:
             chk.ok(R6, q, f'{len(m6.sites.insert_nodes)} insert site(s)', detail='COMMIT only with the pack bytes flushed or the handle closed')
 
+    # loose files are named by the digest under the *current* configuration: no memoised configuration accessor
+    from .common import no_memoised_configuration
+    no_memoised_configuration(ctx, chk, R3, S)
     # ---------------------------------------------------------------- R3
     obj = prog.cls('database:Obj')
     col = obj.constants.get('hashkey')
